@@ -134,6 +134,11 @@ def real_point(r, fname, p):
     """-> ((m, e), class label)"""
     bits = mant_bits(r, p)
     k = r.random()
+    if fname in EXPLIKE and k > 0.93:
+        # where exp(-2|x|) crosses 2^-p: the "does exp(-2x) vanish" shortcuts of cosh/sinh/tanh
+        t = p * 0.34657 * (1 + r.uniform(-0.12, 0.12))
+        m = int(t * 256) | 1
+        return (r.choice([-1, 1]) * m, -8), 'exp(-2x)~2^-p'
     if fname in PILIKE and k < 0.35:
         n = r.randint(-50, 50) if r.random() < 0.7 else r.getrandbits(r.choice([60, 120]))
         j = r.choice([0, 1, 2, 3])
@@ -689,6 +694,12 @@ KNOWN_REGIONS = [
          what='mpc_cos_pi/mpc_sin_pi round pi*Im(z) to p+5 bits before cosh/sinh: the relative error of the result grows like |pi Im z| '
               '(2-3 bits beyond the tolerance at |Im z| = 64, everything for |Im z| >= 2^p)',
          witness={'call': 'cospi(mpc(-0.998, 64))', 'prec': 100, 'observed_error': '47 * 2^-p'}),
+    dict(id='cosh-sinh-vanish-threshold', funcs=['tanh', 'sinh', 'cosh'], kinds='RC', specials=['inf'], dists=['near'],
+         mags={'large': 72}, aniso=BOTH,
+         what='mpf_cosh_sinh drops exp(-2|x|) when 3*2^(mag-1) > p+14, but exp(-2|x|) < 2^-(p+14) needs 2.885*2^(mag-1) > p+14: for '
+              '1024 <= |x| < (p+14)/2.885 and 2940 < p < 3058 tanh returns +-1 and cosh/sinh return exp(|x|)/2 with an error up to '
+              '2^(p-2951) ulp',
+         witness={'call': 'tanh(-1024)', 'prec': 3000, 'observed': '-1.0', 'exact': '-1 + 2^-2953.6'}),
     dict(id='log-quarter-long-mantissa', funcs=['ln', 'log10', 'log:base', 'log1p', 'root', 'power:int', 'power:half', 'power:real',
                                                 'power:complex', 'powm1:int', 'powm1:half', 'powm1:real', 'powm1:complex'],
          kinds='RC', specials=['0'], dists=['far'], mags={'unit': None}, aniso=BOTH,
